@@ -30,9 +30,9 @@ CLAIMED = {
          "Finite domain, enumerated completely on every run: every (distribution, ABI, version, full) build is scanned for profile / sub-profile / hat definitions (plus the upstream policy directory it is laid over) and for named uses (exec targets incl. child and stacked ones, change_profile targets, AppArmorProfile= of the drop-ins); variable targets are expanded with the reference parser's expansion of the built tunables. Source side: every name in exec/stack directives, flags manifests and the overwrite list. Nine genuine data defects are listed as known findings keyed by (user, target).",
          "Trusts the block/rule scanner in c08_test.go; pattern targets (globs, e.g. libvirt-@{uuid}) denote run-time profiles and are accepted; 'unconfined' and namespaces are not references; children used in an abstraction resolve against its includers.",
          "DESIGN.md §2 C08"),
- "C04": ("exhaustive enumeration of the 30 prepare configurations with the real main package (hooked to stop after the prepare stage) against an independent model of the documented prepare steps (differential, both directions)",
-         "For all 30 (distribution, ABI, version, full) configurations the real binary (built with -tags verif, stopped after cli.Prepare by the VERIF_PREPARE_ONLY hook, started over a polluted build directory) is compared with a model written from docs/development/build.md, workflow.md and the statement: expected file set (ignore lists, flattening, configure deltas, overwrite renames + disable/ links, full-system-policy installs, drop-ins), no clashing output names, and contents equal to the source except for manifest flags and the two documented --full edits. Both directions: nothing missing, nothing extra.",
-         "Trusts the prepare model in c04_test.go. The hook only adds an early exit after cli.Prepare() in the real main package, so the task list registered by main.go's init() is what runs. Generated source trees (other group layouts, manifests, ignore lists) are the synthetic-tree stage.",
+ "C04": ("exhaustive enumeration of the 60 prepare configurations on the shipped tree plus rapid-generated source trees (manifests, ignore lists, overwrite list, overlays, drop-ins, stale build content), each run through the real main package (hooked to stop after the prepare stage) against an independent model of the documented prepare steps (differential, both directions)",
+         "For all 60 (distribution, ABI, version incl. cross pairs, full) configurations on the shipped tree, and for 400 (quick) / 8000 (thorough) generated source trees in one drawn configuration each, the real binary (built with -tags verif, stopped after cli.Prepare by the VERIF_PREPARE_ONLY hook, started over a polluted build directory) is compared with a model written from docs/development/build.md, workflow.md and the statement: expected file set (ignore lists, flattening, configure deltas, overwrite renames + disable/ links, full-system-policy installs, drop-ins), no clashing output names, and contents equal to the source except for manifest flags and the two documented --full edits. Both directions: nothing missing, nothing extra.",
+         "Trusts the prepare model in c04_test.go. The hook only adds an early exit after cli.Prepare() in the real main package, so the task list registered by main.go's init() is what runs. Generated trees stay inside what the shipped tree shows to be accepted (one level below group directories, the full-system-policy group always ignored by path, unique names unless dropped by an ignore list, single-blank manifest lines).",
          "DESIGN.md §2 C04"),
  "C02": ("rapid stateful testing over build-directory histories with the real binary (model: a fresh build), repeated fresh builds in separate processes, and generated processing orders in fresh child processes",
          "Histories (earlier builds of other configurations and nine kinds of pollution of .build, then a final build) are generated by rapid and the final manifest must equal that of a fresh build; k fresh builds per configuration in separate processes must agree (each process draws its own map iteration orders); the prepare-stage tree of a real --full build is processed by child processes in generated subsets and orders, and every file's output digest must not depend on what was processed before it.",
@@ -55,7 +55,7 @@ CLAIMED = {
          "Trusts the scanner in c19_test.go, written from tests/check.sh and the statement.",
          "DESIGN.md §2 C19"),
  "C14": ("rapid property-based testing: generated log files vs. a reference model of the documented selection, in-process and through the real aa-log binary (metamorphic: two runs, same bytes)",
-         "Generated search over log files (1-40 lines: records of all three states in kernel and dbus style with unique tokens, repeats differing in timestamp/pid, STATUS records, foreign lines, noise-path records, blank/garbled/binary lines and lines > 64 KiB, in audit, syslog and journald-JSON framing, with and without a profile filter incl. filters with '.'): the token sequence reported by the library reader, and by the real binary in list and raw mode, must equal the model's (nothing lost, nothing invented, input order, once); the listing rendered five times and every binary mode run twice must give identical bytes; exit status 0.",
+         "Generated search over log files (1-40 lines: records of all three states in kernel and dbus style with unique tokens, repeats differing in timestamp/pid, variants of a record that differ only in a twin name generalised to the same pattern or in the fsuid (two accesses, both reported), names right next to the noise paths, STATUS records, foreign lines, noise-path records, blank/garbled/binary lines and lines > 64 KiB, in audit, syslog and journald-JSON framing, with and without a profile filter incl. filters with '.'): the token sequence reported by the library reader, and by the real binary in list and raw mode, must equal the model's (nothing lost, nothing invented, input order, once); the listing rendered five times and every binary mode run twice must give identical bytes; exit status 0.",
          "Trusts the selection model in c14_test.go; noise exemplars are the documented base-abstraction paths (no borderline spellings); unrelated journal entries are valid JSON (journalctl --output=json always writes valid JSON); output determinism is probabilistic per case (map order), bounded by repetition.",
          "DESIGN.md §2 C14"),
  "C15": ("rapid property-based testing: log records generated from a field map with kernel / dbus-daemon encoding vs. the field map itself (round trip through the encoder model)",
@@ -78,8 +78,8 @@ CLAIMED = {
          "Generated search: 40k lists per quick run (1.6M thorough) of 2-12 rules in which two thirds are near-duplicates of an earlier rule; an independent denotation (rule -> set of qualifier/subject/permission facts, written from apparmor.d(5)) must be unchanged by Merge, and Merge must be idempotent. Fixed witnesses keep every repaired finding under regression.",
          "Trusts the denotation in c10_test.go (which lists are disjunctive, that an absent list means 'all') and the reflection bridge; conflicting exec transitions on one path are not generated (invalid policy).",
          "DESIGN.md §2 C10"),
- "C11": ("rapid property-based testing: generated pairs/triples/permuted lists vs. order axioms",
-         "Generated search: 50k pairs, 50k triples, 4k permuted lists per quick run (millions thorough) from a narrow vocabulary where near-duplicates are the norm; antisymmetry, reflexivity, transitivity, equal=>identical and permutation-independence / idempotence of Sort are checked on every case. No proof of absence: a violation confined to values outside the vocabulary is not reached.",
+ "C11": ("rapid property-based testing: generated pairs/triples/permuted lists vs. order axioms, plus the same lists sorted by fresh child processes (comparison without memory)",
+         "Generated search: 50k pairs, 50k triples, 4k permuted lists per quick run (millions thorough) from a narrow vocabulary where near-duplicates are the norm; antisymmetry, reflexivity, transitivity, equal=>identical and permutation-independence / idempotence of Sort are checked on every case; 480 (quick) lists are also sorted by two fresh child processes in different orders and by the long-running parent, and the three results must agree. No proof of absence: a violation confined to values outside the vocabulary is not reached.",
          "Trusts rapid's generators/shrinker and the harness' reflection bridge (rs.go) between field maps and the library structs; Comment rules are outside the domain (documented as never compared).",
          "DESIGN.md §2 C11"),
 }
